@@ -77,7 +77,10 @@ func script(seed int64, idx int) {
 	rng := rand.New(rand.NewSource(seed))
 	page := []int{1, 2, 3, 100}[rng.Intn(4)]
 	mainnet := rng.Intn(2) == 0
-	w, err := alphsim.NewWorld(rng, page, mainnet, 2, func(s string) { vlib.CStep(fmt.Sprintf("script %d: %s", idx, s)) })
+	// lrng is only ever used while the simulator's lock is held (by the script inside Mutate and by
+	// the request hook inside the HTTP handler); rng belongs to the script goroutine alone
+	lrng := rand.New(rand.NewSource(seed ^ 0x5eed))
+	w, err := alphsim.NewWorld(lrng, page, mainnet, 2, func(s string) { vlib.CStep(fmt.Sprintf("script %d: %s", idx, s)) })
 	if err != nil {
 		vlib.CInconclusive("world: " + err.Error())
 		return
@@ -88,40 +91,40 @@ func script(seed int64, idx int) {
 	var hostile []string
 	// emitOne appends one event (inside the simulator lock)
 	emitOne := func(s *alphsim.Sim, b *alphsim.Block, class string) {
-		tx := fmt.Sprintf("%064x", rng.Uint64())
+		tx := fmt.Sprintf("%064x", lrng.Uint64())
 		switch class {
 		case "good-transfer", "good-attest", "good-boundary":
 			kind := "transfer"
-			cl := uint8(rng.Intn(4))
+			cl := uint8(lrng.Intn(4))
 			if class == "good-attest" {
 				kind = "attest"
 			}
 			in := wIntent(w, kind, cl)
 			if class == "good-boundary" {
-				switch rng.Intn(3) {
+				switch lrng.Intn(3) {
 				case 0:
 					in.Target = 65535
 				case 1:
 					in.CL = 255
 				default:
-					in.Seq = ^uint64(0) - uint64(rng.Intn(1000))
+					in.Seq = ^uint64(0) - uint64(lrng.Intn(1000))
 				}
 			}
 			e := s.Emit(s.Core, b, tx, 0, alphsim.FieldsOf(in), in, class)
 			s.TxBlock[tx] = b.Hash
 			expected = append(expected, e)
 		case "foreign-sender":
-			in := wIntent(w, "foreign-sender", uint8(rng.Intn(3)))
+			in := wIntent(w, "foreign-sender", uint8(lrng.Intn(3)))
 			s.Emit(s.Core, b, tx, 0, alphsim.FieldsOf(in), in, class)
 		case "foreign-attest-bad-token":
-			in := wIntent(w, "attest-bad-token", uint8(rng.Intn(3)))
-			rng.Read(in.Sender[:])
+			in := wIntent(w, "attest-bad-token", uint8(lrng.Intn(3)))
+			lrng.Read(in.Sender[:])
 			s.Emit(s.Core, b, tx, 0, alphsim.FieldsOf(in), in, class+":"+s.Tokens[fmt.Sprintf("%x", in.Payload[1:33])].Mode)
 			hostile = append(hostile, class+":"+s.Tokens[fmt.Sprintf("%x", in.Payload[1:33])].Mode)
 			return
 		case "foreign-attest-short":
 			in := wIntent(w, "attest", 0)
-			rng.Read(in.Sender[:])
+			lrng.Read(in.Sender[:])
 			in.Payload = in.Payload[:99]
 			s.Emit(s.Core, b, tx, 0, alphsim.FieldsOf(in), in, class)
 		case "malformed":
@@ -167,13 +170,13 @@ func script(seed int64, idx int) {
 						state = 2
 						s.Version++
 						for i := 0; i < late; i++ {
-							emitOne(s, blk, classes[rng.Intn(len(classes))])
+							emitOne(s, blk, classes[lrng.Intn(len(classes))])
 						}
 					case state == 2 && kind == "page":
 						state = 3
 						s.Version++
 						for i := 0; i < later; i++ {
-							emitOne(s, blk, classes[rng.Intn(len(classes))])
+							emitOne(s, blk, classes[lrng.Intn(len(classes))])
 						}
 					}
 				}
